@@ -51,6 +51,29 @@ pub fn run_property(c: &mut ctx::Ctx) -> bool {
         "C17" => props_c17::c17(c),
         _ => return false,
     }
+    // every value property also judges its own operators inside mixed histories (other operators on
+    // the same / look-alike operands before and after): see props_c17::semantic_key_histories
+    let own: Option<(&str, &[&str])> = match c.pid.as_str() {
+        "C04" => Some(("c04.mixed-history", &[])),
+        "C05" => Some(("c05.mixed-history", &["if", "?:", "and", "or"])),
+        "C06" => Some(("c06.mixed-history", &["!", "!!", "if", "and", "filter", "some"])),
+        "C07" => Some(("c07.mixed-history", &["==", "!="])),
+        "C08" => Some(("c08.mixed-history", &["===", "!=="])),
+        "C09" => Some(("c09.mixed-history", &["<", "<=", ">", ">="])),
+        "C10" => Some(("c10.mixed-history", &["+", "-", "*", "/", "%", "min", "max"])),
+        "C11" => Some(("c11.mixed-history", &["var"])),
+        "C12" => Some(("c12.mixed-history", &["missing", "missing_some"])),
+        "C13" => Some(("c13.mixed-history", &["map", "filter", "reduce"])),
+        "C14" => Some(("c14.mixed-history", &["some"])),
+        "C15" => Some(("c15.mixed-history", &["in", "merge"])),
+        "C16" => Some(("c16.mixed-history", &["cat", "substr"])),
+        _ => None,
+    };
+    if let Some((mon, ops)) = own {
+        if !c.small {
+            props_c17::semantic_key_histories(c, mon, ops);
+        }
+    }
     true
 }
 
